@@ -47,6 +47,8 @@ inductive Outcome where
   | done            -- (true, nil); Finished deletes the job
   | doneFinishFail  -- (true, nil) but the shelf write of Finished fails
   | notDone         -- (false, nil)
+  | notDoneFin      -- (false, nil), and while the receiver ran another goroutine called Finished() for this job
+                    -- (protocol v2: the payload reply - WritePayload, private.Finished - is handled before handlePrivateTxRetry returns)
   | fail            -- (false, err)
   | failCtx         -- (false, err), text ends in ContextURLNotAllowedErr
   | fatal           -- (false, EventFatal{err})
@@ -77,6 +79,8 @@ structure Cfg where
   failedThreshold : Nat
   /-- `State.WritePayload` does nothing when the payload is already stored -/
   skipPresent : Bool
+  /-- the write-back of `notifyNow` does not re-create a job that was removed while the receiver ran -/
+  writeBackSkipsGone : Bool
 
 /-- a running `retry.Do` goroutine -/
 structure Task where
@@ -139,6 +143,10 @@ def notifyNow (c : Cfg) (σ : St) (s r : Nat) : St × NRes :=
     | .done => (setJob σ1 s r none, .nil)
     | .doneFinishFail => (σ1, .err)
     | .notDone => (setJob σ1 s r (some { j with retries := j.retries + 1, err := .incomplete }), .err)
+    | .notDoneFin =>
+      -- Finished() deleted the job and is on record; then the write-back runs
+      (setJob (log σ1 (.fin s r)) s r
+        (if c.writeBackSkipsGone then none else some { j with retries := j.retries + 1, err := .incomplete }), .err)
     | .fail => (setJob σ1 s r (some { j with retries := j.retries + 1, err := .generic }), .err)
     | .failCtx => (setJob σ1 s r (some { j with retries := j.retries + 1, err := .ctx }), .err)
     | .fatal => (setJob σ1 s r (some { j with retries := c.maxRetries + 1, err := .fatal }), .fatal)
